@@ -10,4 +10,5 @@ def main : IO Unit := runDriver fun
   | "hmac" :: args => Derive.handleHmac args
   | "hkdf" :: args => Derive.handleHkdf args
   | "dtlshello" :: args => Derive.handleDtlsHello args
+  | "dtlscred" :: args => Derive.handleDtlsCred args
   | _ => none
